@@ -55,18 +55,17 @@ class IdleHandshakeHandler(Elaboratable):
         data_word = self.sink.data
         ctrl_word = self.sink.ctrl
 
-        # Capture the previous data word; so we have a record of eight consecutive signals.
-        last_word = Signal.like(data_word)
-        last_ctrl = Signal.like(ctrl_word)
-        m.d.ss += [
-            last_word.eq(data_word),
-            last_ctrl.eq(ctrl_word),
-        ]
+        # Logical idle descrambles to the raw data value zero; so a word is idle if it's all zeroes.
+        # Only words the stream marks valid are received symbols: idle cycles of the stream itself
+        # (which typically show zeroes, too) neither count as logical idle nor interrupt a run of it.
+        current_word_is_idle = self.sink.valid & (data_word == 0) & (ctrl_word == 0)
 
-        # Logical idle descrambles to the raw data value zero; so we only need to validate that
-        # the last and current words are both zeroes.
-        last_word_was_idle   = (last_word == 0) & (last_ctrl == 0)
-        current_word_is_idle = (data_word == 0) & (ctrl_word == 0)
+        # Remember whether the previous received word was idle; so we have a record of eight
+        # consecutive symbols. (Out of reset, no word has been received yet.)
+        last_word_was_idle = Signal()
+        with m.If(self.sink.valid):
+            m.d.ss += last_word_was_idle.eq(current_word_is_idle)
+
         m.d.comb += [
             self.idle_detected  .eq(last_word_was_idle & current_word_is_idle)
         ]
